@@ -214,6 +214,11 @@ func (s *socket) onPacket(data *packet.Packet) {
 	socket_log.Debug(`received packet %s`, data.Type)
 	s.Emit("packet", data)
 
+	if s.ReadyState() != "open" {
+		// closed by a packet listener: nothing more is delivered
+		return
+	}
+
 	switch data.Type {
 	case packet.PING:
 		if s.protocol != 3 {
